@@ -14,7 +14,7 @@
      scalar c                        c is a Unicode scalar value (not a surrogate, <= 10FFFF): exactly
                                      the text urllib.parse.quote can encode (lone surrogates raise
                                      UnicodeEncodeError on the client and cannot be sent) *)
-From Verif Require Import lib.Base lib.Str lib.Utf8 lib.Pct model.Qsl proofs.C18_spec proofs.C18_proofs.
+From Verif Require Import lib.Base lib.Str lib.Utf8 lib.Pct model.Qsl proofs.C18_spec proofs.C18_proofs proofs.C18_scan.
 
 (* For EVERY list of pairs with non-empty keys and scalar text — any characters,
    including '=', '&', '+', '%', space, controls, Latin-1, non-BMP; any repetition
@@ -74,6 +74,20 @@ Theorem C18_fuel_suffices :
 Proof. exact C18_fuel_lemma. Qed.
 Print Assumptions C18_fuel_suffices.
 
+(* The index arithmetic of the hand-written scanner, on EVERY string (stray '%',
+   '&&', '==', '=v', trailing separators, anything): it computes exactly the
+   declarative splitting [qsl_spec] (proofs/C18_spec.v) — split on '&'; in each
+   segment drop leading '='; nothing left: no pair; otherwise split at the first
+   '=' (none: blank value) and percent-decode both sides — and query/forms are
+   the grouping of that list. *)
+Theorem C18_scanner_refines_split_spec :
+  forall qs : str,
+    parse_qsl_pairs qs = QDone (qsl_spec qs)
+    /\ query qs = QDone (group (qsl_spec qs))
+    /\ forms_urlencoded qs = QDone (group (qsl_spec qs)).
+Proof. exact C18_scanner_lemma. Qed.
+Print Assumptions C18_scanner_refines_split_spec.
+
 (* ---- the shared primitives (lib/Utf8.v, lib/Pct.v) ---- *)
 
 Theorem C18_utf8_dec_enc :
@@ -132,3 +146,9 @@ Example C18_outside_hypothesis :
   parse_qsl_pairs (urlencode [([], [118])])%N = QDone [([118], [])]%N
   /\ parse_qsl_pairs [37; 101; 57; 61; 37; 122; 122]%N = QDone [([65533], [37; 122; 122])]%N.
 Proof. vm_compute. repeat split. Qed.
+
+(* the splitting spec on a ragged string:  "=v&&a==b=&c&%zz=%e9&"  *)
+Example C18_spec_example :
+  qsl_spec [61;118;38;38;97;61;61;98;61;38;99;38;37;122;122;61;37;101;57;38]%N
+  = [([118], []); ([97], [61;98;61]); ([99], []); ([37;122;122], [65533])]%N.
+Proof. vm_compute. reflexivity. Qed.
